@@ -6,11 +6,15 @@ _BASE = ("(a) replay of the repository's recorded jq 1.7.1 behaviour (golden cas
          "caught form) through the freshly built `succinctly jq` binary and through the Lean model in its jq-1.7.1 dialect, "
          "each side comparing its own output with the recording embedded in the request; (b) generated core-fragment "
          "programs x inputs through the CLI (stdout values, stderr message, exit status) against the model as oracle, "
-         "programs using a documented divergence (docs/compliance/jq/limitations.md) filtered out")
+         "programs using a documented divergence (docs/compliance/jq/limitations.md) filtered out; includes an order class "
+         "(sort/unique/min/max/group_by/< on same-key-set objects with permuted insertion orders)")
 
 
 def _verdict(req, impl, model):
     op = req.split(" ", 2)[1] if " " in req else ""
+    if op == "mcase":
+        # recorded case replayed through the oracle only (the CLI replays it in the thorough tier)
+        return "disagree" if model.startswith("MODEL-MISMATCH") else "skip"
     if op == "case":
         if impl != "REPRO":
             return "disagree"          # the CLI does not reproduce recorded jq 1.7.1 behaviour
@@ -29,6 +33,7 @@ def _verdict(req, impl, model):
 
 def _counters(triples):
     cases = [t for t in triples if t[0].split(" ", 2)[1] == "case"]
+    allc = [t for t in triples if t[0].split(" ", 2)[1] in ("case", "mcase") and not t[0].split(" ", 3)[2].startswith("F")]
     runs = [t for t in triples if t[0].split(" ", 2)[1] == "run"]
     return {
         "recorded_cases": len(cases),
@@ -36,6 +41,10 @@ def _counters(triples):
         "recorded_cases_model_reproduces": sum(1 for t in cases if t[2] == "REPRO"),
         "recorded_cases_model_no_verdict": sum(1 for t in cases if t[2].startswith("OUT-OF-FRAGMENT")),
         "recorded_cases_model_mismatch": sum(1 for t in cases if t[2].startswith("MODEL-MISMATCH")),
+        "recorded_corpus_total": len(allc),
+        "recorded_corpus_model_reproduces": sum(1 for t in allc if t[2] == "REPRO"),
+        "recorded_corpus_model_no_verdict": sum(1 for t in allc if t[2].startswith("OUT-OF-FRAGMENT")),
+        "recorded_corpus_model_mismatch": sum(1 for t in allc if t[2].startswith("MODEL-MISMATCH")),
         "generated_runs": len(runs),
         "generated_runs_documented_divergence_skipped": sum(1 for t in runs if t[1].startswith("DOCUMENTED-DIVERGENCE")),
         "generated_runs_model_no_verdict": sum(1 for t in runs if "OUT-OF-FRAGMENT" in t[2] and not t[1].startswith("DOCUMENTED-DIVERGENCE")),
